@@ -248,6 +248,12 @@ type variant struct {
 	// boundary) over the same ways, members in reverse order; each relation
 	// has to produce its own feature with the ground-truth geometry
 	twoRelations bool
+	// dupMembers: every way member is listed a second time (in reverse member order). Such a
+	// relation is no valid multipolygon and the model says nothing about its geometry; judged
+	// is only that the result equals the result for the twin data set in which the second
+	// listings reference equal copies of the ways under other ids (whatever is kept per way
+	// inside one conversion must not make a way's second listing differ from an equal way)
+	dupMembers bool
 	// secondFirst: the second relation is listed (and converted) before the first
 	secondFirst bool
 	// opts: 0 = Convert(o); 1 = NoID, NoMeta, NoRelationMembership and
@@ -279,6 +285,8 @@ var extVariants = []variant{
 	// leave the shared ways turned round for the other
 	{name: "two-relations+oriented+waynodes", annotated: true, typ: "multipolygon", oriented: true, twoRelations: true},
 	{name: "two-relations-second-first+oriented+nodes", typ: "boundary", oriented: true, twoRelations: true, secondFirst: true},
+	{name: "ways-listed-twice+oriented+waynodes", annotated: true, typ: "multipolygon", oriented: true, dupMembers: true},
+	{name: "ways-listed-twice+partly-oriented+nodes", typ: "boundary", oriented: true, partial: 1, dupMembers: true},
 }
 
 var moreTags = osm.Tags{{Key: "boundary", Value: "administrative"}, {Key: "name", Value: "X"}}
@@ -515,6 +523,57 @@ func checkCaseNoKit(col *collector, t polycut.Truth, c polycut.Case, ext bool, n
 					b.Relation.Members[i].Orientation = 0
 				}
 			}
+		}
+		if v.dupMembers {
+			twin := kit.DeepCopy(b.OSM).(*osm.OSM)
+			var trel *osm.Relation
+			for _, r := range twin.Relations {
+				if r.ID == b.Relation.ID {
+					trel = r
+				}
+			}
+			ms := b.Relation.Members
+			for i := len(ms) - 1; i >= 0; i-- {
+				if ms[i].Type != osm.TypeWay {
+					continue
+				}
+				b.Relation.Members = append(b.Relation.Members, ms[i])
+				m2 := trel.Members[i]
+				for _, w := range twin.Ways {
+					if int64(w.ID) == ms[i].Ref {
+						cp := kit.DeepCopy(w).(*osm.Way)
+						cp.ID += 1 << 20
+						twin.Ways = append(twin.Ways, cp)
+						m2.Ref = int64(cp.ID)
+						break
+					}
+				}
+				trel.Members = append(trel.Members, m2)
+			}
+			relGeoms := func(o *osm.OSM) ([]orb.Geometry, error) {
+				fc, err := osmgeojson.Convert(o, v.convertOptions()...)
+				n.conv++
+				if err != nil {
+					return nil, err
+				}
+				var gs []orb.Geometry
+				for _, f := range fc.Features {
+					if f.Properties["type"] == "relation" {
+						gs = append(gs, f.Geometry)
+					}
+				}
+				return gs, nil
+			}
+			ga, ea := relGeoms(b.OSM)
+			gb, eb := relGeoms(twin)
+			same := (ea == nil) == (eb == nil) && len(ga) == len(gb)
+			for i := 0; same && i < len(ga); i++ {
+				same = (ga[i] == nil && gb[i] == nil) || (ga[i] != nil && gb[i] != nil && orb.Equal(ga[i], gb[i]))
+			}
+			if !same {
+				col.add("duplicate-listing/"+v.name+"/"+shape, fmt.Sprintf("every way member listed twice: the relation features differ from those of the twin data set whose second listings reference equal copies of the ways (err %v / %v, %d / %d relation features); case %s", ea, eb, len(ga), len(gb), c.Fingerprint()), c)
+			}
+			continue
 		}
 		want := 1
 		if v.twoRelations {
